@@ -280,6 +280,8 @@ def gen_colarea(run):
 def _trace_job(seeds):
     try:
         out = []
+        sticky = bool(seeds) and (seeds[0] // 100) % 2 == 1       # every second batch: one Executor per table length for the whole sequence
+        sessions = {}
         for sd in seeds:
             rng = random.Random(sd)
             n = rng.randint(1, NMAX)
@@ -291,7 +293,9 @@ def _trace_job(seeds):
             if rng.random() < 0.3:
                 obs_v = float(v)
             p = probe(n)
-            res = p.eval([(0, 0, i, k) for i, k in enumerate(keys)] + [(0, 4, 0, obs_v)])
+            if sticky and n not in sessions:
+                sessions[n] = p.session()
+            res = (sessions[n].eval if sticky else p.eval)([(0, 0, i, k) for i, k in enumerate(keys)] + [(0, 4, 0, obs_v)])
             for j, f in ((0, 'VEXACT'), (3, 'VAPPROX'), (4, 'VAPPROX'), (6, 'EXACT'), (7, 'APPROX'), (8, 'APPROX'), (9, 'EXACT'), (11, 'LAST'), (12, 'PARTNER')):
                 out.append({'f': f, 'keys': keys, 'v': v, 'o': code(*res[j]), 'raw': show(*res[j]), 'formula': p.formulas[j]})
         return out
